@@ -185,25 +185,43 @@ theorem letterOf_rcmd : letterOf "rcmd_name" = 'R' := by decide
 theorem letterOf_misc : letterOf "misc_modules" = 'M' := by decide
 theorem letterOf_path : letterOf "remote_program_path" = 'e' := by decide
 
-/-- SETTINGS TABLE, environment side: for EVERY row (variable, opt_t field, conversion) that harness/consts/
-    optable.c reads off opt_env() of the tree under test — not a typed list — an accepted configuration obeys
-    command line > that variable > default, the option letter being the one the generated switch table gives for
-    the field and the environment conversion the one named in the row.  A variable added to opt_env changes the
-    generated table and this theorem stops checking until the model covers it. -/
+/-- what the generated ENVIRONMENT table may contain: the rows the model covers (variable, member and behaviour
+    class must all fit), in any order and any number -/
+def EnvRowKnown (r : String × String × String) : Bool :=
+  (r.2.1 = "fanout" && r.1 = "FANOUT" && r.2.2 = "string_to_int") ||
+  (r.2.1 = "connect_timeout" && r.1 = "PDSH_CONNECT_TIMEOUT" && r.2.2 = "string_to_int") ||
+  (r.2.1 = "command_timeout" && r.1 = "PDSH_COMMAND_TIMEOUT" && r.2.2 = "string_to_int") ||
+  (r.2.1 = "rcmd_name" && r.1 = "PDSH_RCMD_TYPE" && r.2.2 = "strdup") ||
+  (r.2.1 = "misc_modules" && r.1 = "PDSH_MISC_MODULES" && r.2.2 = "strdup") ||
+  (r.2.1 = "remote_program_path" && r.1 = "PDSH_REMOTE_PDCP_PATH" && r.2.2 = "strdup") ||
+  r.2.1 = "dshpath"
+
+/-- SETTINGS TABLE, environment side: for EVERY row (variable, opt_t member, behaviour class) that harness/consts/
+    optable.c derives from the BEHAVIOUR of opt_env() of the tree under test (getenv interposed: every name asked for
+    is set to a sentinel, the members that change give the rows) — not a typed list, not a reading of the source
+    text — an accepted configuration obeys command line > that variable > default, the option letter being the one
+    the generated switch table gives for the member and the environment conversion the one named in the row.
+    A variable added to opt_env changes the generated table and this theorem stops checking until the model covers
+    it; a refactoring that keeps the behaviour leaves the table, and this proof, untouched (the proof does not
+    depend on the order or number of rows). -/
 theorem env_table_precedence {fx : Fixes} {d : Defaults} {p : Pers} {env : Env} {argv : List Str} {c : Cfg}
     (h : effective fx d p env argv = .ok c) : ∀ r ∈ Gen.OT_ENVS, EnvRowHolds fx d p env argv c r := by
   obtain ⟨a1, a2, a3, _, a5, a6, a7⟩ := precedence h
   have cs : ∀ t, (convByName fx "string_to_int" t).getD 0 = convS fx t := fun t => by simp [convByName, convS]
+  have known : ∀ r ∈ Gen.OT_ENVS, EnvRowKnown r = true := by decide
   intro r hr
-  simp only [Gen.OT_ENVS, List.mem_cons, List.mem_nil_iff, or_false] at hr
-  rcases hr with rfl | rfl | rfl | rfl | rfl | rfl | rfl
+  have hk := known r hr
+  obtain ⟨v, f, cv⟩ := r
+  simp only [EnvRowKnown, Bool.or_eq_true, Bool.and_eq_true, decide_eq_true_eq] at hk
+  rcases hk with (((((⟨⟨rfl, rfl⟩, rfl⟩ | ⟨⟨rfl, rfl⟩, rfl⟩) | ⟨⟨rfl, rfl⟩, rfl⟩) | ⟨⟨rfl, rfl⟩, rfl⟩) | ⟨⟨rfl, rfl⟩, rfl⟩) |
+    ⟨⟨rfl, rfl⟩, rfl⟩) | rfl
   · simp only [EnvRowHolds, if_true, letterOf_fanout, cs]; exact a1
   · simp only [EnvRowHolds, letterOf_ctmo, cs]; simpa using a2
   · simp only [EnvRowHolds, letterOf_utmo, cs]; simpa using a3
   · simp only [EnvRowHolds, letterOf_rcmd]; simpa using a5
   · simp only [EnvRowHolds, letterOf_misc]; simpa using a6
-  · simp [EnvRowHolds]
   · simp only [EnvRowHolds, letterOf_path]; simpa using a7
+  · simp [EnvRowHolds]
 
 /-- SETTINGS TABLE, option side: every `case` of the generated switch table of opt_args is accounted for — the
     remote user (no variable) obeys command line > default; the fields with a variable are the rows above; what
@@ -218,15 +236,63 @@ theorem opt_table_precedence {fx : Fixes} {d : Defaults} {p : Pers} {env : Env} 
       decide
     simp only [OptRowHolds, hru, if_true, this]
     exact a4
-  · have : (Gen.OT_ENVS.any (fun e => e.2.1 = r.2.1)) = true ∨ r.2.2 = "flag" ∨ r.2.2 = "none" := by
+  · have : (Gen.OT_ENVS.any (fun e => e.2.1 = r.2.1)) = true ∨
+        (r.2.2 = "flag" ∨ r.2.2 = "none" ∨ r.2.2 = "exit0" ∨ r.2.2 = "exit1") ∨ r.2.1 = "wcoll" := by
       revert hru; revert r
       decide
     simp only [OptRowHolds, hru, if_false]
-    rcases this with h1 | h2
+    by_cases h1 : (Gen.OT_ENVS.any (fun e => e.2.1 = r.2.1)) = true
     · simp [h1]
-    · by_cases h1 : (Gen.OT_ENVS.any (fun e => e.2.1 = r.2.1)) = true
-      · simp [h1]
+    · rcases this with h0 | h2 | h3
+      · exact absurd h0 h1
       · simp [h1, h2]
+      · by_cases h2 : (r.2.2 = "flag" ∨ r.2.2 = "none" ∨ r.2.2 = "exit0" ∨ r.2.2 = "exit1")
+        · simp [h1, h2]
+        · simp [h1, h2, h3]
+
+/-- THE SWITCH, letter by letter: every row (letter, opt_t member, behaviour class) that the probe derives from the
+    BEHAVIOUR of opt_args of the tree under test is the `case` the model's switch has for that letter — the letters
+    that end the program (exit 0: -L -V -T; exit 1: -h and the letters of the option string nobody handles), the
+    flags with the member they set, the numeric settings with their member, the texts kept verbatim, the bounded
+    text (-l), the target list.  A new letter, a letter that starts to set another member, or a changed conversion
+    (atoi for string_to_int) changes the table and this theorem stops checking. -/
+theorem switch_table_agrees : ∀ r ∈ Gen.OT_OPTS, SwitchRowAgrees r = true := by decide
+
+/-- ... and every letter of the three generated option strings has a row: no `case` of the real switch is missing
+    from the table the theorems range over -/
+theorem switch_table_complete :
+    ∀ ch ∈ (Gen.OT_GEN_ARGS ++ Gen.OT_DSH_ARGS ++ Gen.OT_PCP_ARGS).toList, ch = ':' ∨
+      Gen.OT_OPTS.any (fun r => r.1.toList.headD ' ' = ch) = true := by decide
+
+/-- what `switch_table_agrees` means for the model's ACTION, class by class (every variant of the code, every module
+    option text, every argument) -/
+theorem switch_rows_act (fx : Fixes) (d : Defaults) (arg : Option Str) : ∀ r ∈ Gen.OT_OPTS,
+    let ch := r.1.toList.headD ' '
+    (r.2.2 = "exit0" → action fx d (.opt ch arg) = .exit 0) ∧
+    (r.2.2 = "exit1" → modOpt d ch = false → fx.dopt = false → action fx d (.opt ch arg) = .exit 1) ∧
+    (r.2.2 = "none" → fx.dopt = true → action fx d (.opt ch arg) = .keep) ∧
+    (r.2.2 = "bounded_text" → action fx d (.opt ch arg) =
+      if (arg.getD []).length > d.loginMax then .exit 1 else .ruser (arg.getD [])) := by
+  intro r hr
+  have hk := switch_table_agrees r hr
+  obtain ⟨l, f, cv⟩ := r
+  simp only [List.headD_eq_head?_getD]
+  refine ⟨?_, ?_, ?_, ?_⟩
+  · intro h; subst h
+    simp [SwitchRowAgrees, caseOfRow] at hk
+    simp [action, hk]
+  · intro h hm hd; subst h
+    simp [SwitchRowAgrees, caseOfRow] at hk
+    rcases hk with hk | hk <;> simp [action, hk, hm, hd]
+  · intro h hd; subst h
+    simp [SwitchRowAgrees, caseOfRow] at hk
+    rcases hk with hk | hk <;> simp [action, hk, hd]
+  · intro h; subst h
+    simp only [SwitchRowAgrees, caseOfRow] at hk
+    by_cases hf : f = "ruser"
+    · simp [hf] at hk
+      simp [action, hk]
+    · simp [hf] at hk
 
 /-- NUMERIC SETTINGS, one theorem over the generated tables: every row of the option and environment tables whose
     opt_t field is an `int` (OT_INT_FIELDS, read off opt.h) converts with string_to_int — no atoi is left — and that
